@@ -1733,7 +1733,7 @@ def gen_history(rng, nshared=0, shared_desc=None, maxops=40):
         else:
             i = rng.below(len(slots))
             if slots[i][0] == 3:
-                ops.append("X%d,%d" % (i, rng.below(6)))
+                ops.append("X%d,%d" % (i, rng.below(10)))
     for i in range(len(slots)):
         ops.append("Q%d" % i)
     for o in ops:
@@ -1976,7 +1976,9 @@ class ConcProp:
                     own = len(desc)
                     h = ["N3%s" % "BTE"[g % 3], "D%d,%s" % (own, core.hx(vec.rand_v3(rng, g % 3, perm=False)))]
                     for k in range(nrep):
-                        h.append("X%d,%d" % ((own if k % 2 else g % 3), (g + (k // 97)) % 6))
+                        # every other export uses one of the four texts that define the sub-template "cell" (neighbouring goroutines use
+                        # different ones at the same time): a shared template name space would render one with another's definition
+                        h.append("X%d,%d" % ((own if k % 2 else g % 3), (6 + (g + k // 7) % 4) if k % 2 == 0 else (g + (k // 97)) % 6))
                     hs.append(";".join(h))
             elif r % 4 == 3:
                 # decode/encode storm (both versions) after every goroutine has had a complete but misordered v2 vector rejected
